@@ -163,6 +163,51 @@ fn htype(v: u64) -> mh::HeaderTagType {
     }
 }
 
+/// Specification table: boot-information tag type number → the crate's enum
+/// variant (written from the specification, not from the crate's `From` impls).
+pub fn tag_type_variant(n: u32) -> mb::TagType {
+    use mb::TagType::*;
+    match n {
+        0 => End,
+        1 => Cmdline,
+        2 => BootLoaderName,
+        3 => Module,
+        4 => BasicMeminfo,
+        5 => Bootdev,
+        6 => Mmap,
+        7 => Vbe,
+        8 => Framebuffer,
+        9 => ElfSections,
+        10 => Apm,
+        11 => Efi32,
+        12 => Efi64,
+        13 => Smbios,
+        14 => AcpiV1,
+        15 => AcpiV2,
+        16 => Network,
+        17 => EfiMmap,
+        18 => EfiBs,
+        19 => Efi32Ih,
+        20 => Efi64Ih,
+        21 => LoadBaseAddr,
+        c => Custom(c),
+    }
+}
+
+/// Specification table: memory-map entry type → enum variant
+/// (1 available, 2 reserved, 3 ACPI reclaimable, 4 NVS, 5 bad RAM).
+pub fn area_type_variant(n: u32) -> mb::MemoryAreaType {
+    use mb::MemoryAreaType::*;
+    match n {
+        1 => Available,
+        2 => Reserved,
+        3 => AcpiAvailable,
+        4 => ReservedHibernate,
+        5 => Defective,
+        c => Custom(c),
+    }
+}
+
 /// `Some(text)` iff the op's string argument is usable (valid UTF-8).
 pub fn str_arg(op: &Op) -> Option<&str> {
     std::str::from_utf8(op.bytes(0)).ok()
@@ -397,9 +442,19 @@ pub fn build(c: Ctor, op: &Op) -> Built {
         Ctor::ImageLoadAddr => Built::ImageLoadAddr(mb::ImageLoadPhysAddrTag::new(a(op, 0) as u32)),
         Ctor::EndDefault => Built::End(mb::EndTag::default()),
         // a = [typ, size]
-        Ctor::TagHdrNew => Built::TagHdr(mb::TagHeader::new(a(op, 0) as u32, a(op, 1) as u32)),
+        // a = [typ, size, via_enum]: the type argument is `impl Into<TagTypeId>`
+        Ctor::TagHdrNew => Built::TagHdr(if a(op, 2) % 2 == 1 {
+            mb::TagHeader::new(tag_type_variant(a(op, 0) as u32), a(op, 1) as u32)
+        } else {
+            mb::TagHeader::new(a(op, 0) as u32, a(op, 1) as u32)
+        }),
         // a = [base, len, typ]
-        Ctor::MemAreaNew => Built::MemArea(mb::MemoryArea::new(a(op, 0), a(op, 1), a(op, 2) as u32)),
+        // a = [base, len, typ, via_enum]: the type argument is `impl Into<MemoryAreaTypeId>`
+        Ctor::MemAreaNew => Built::MemArea(if a(op, 3) % 2 == 1 {
+            mb::MemoryArea::new(a(op, 0), a(op, 1), area_type_variant(a(op, 2) as u32))
+        } else {
+            mb::MemoryArea::new(a(op, 0), a(op, 1), a(op, 2) as u32)
+        }),
         // a = [typ], b[0] = content  (new_boxed; used to feed add_custom_tag)
         Ctor::Custom => Built::Custom(multiboot2_common::new_boxed::<mb::DynSizedStructure<mb::TagHeader>>(
             mb::TagHeader::new(a(op, 0) as u32, 0),
@@ -510,11 +565,16 @@ fn mmap_areas(op: &Op) -> Vec<mb::MemoryArea> {
     op.bytes(0)
         .chunks_exact(20)
         .map(|c| {
-            mb::MemoryArea::new(
+            let (base, len, typ) = (
                 u64::from_le_bytes(c[0..8].try_into().unwrap()),
                 u64::from_le_bytes(c[8..16].try_into().unwrap()),
                 u32::from_le_bytes(c[16..20].try_into().unwrap()),
-            )
+            );
+            if a(op, 0) % 2 == 1 {
+                mb::MemoryArea::new(base, len, area_type_variant(typ))
+            } else {
+                mb::MemoryArea::new(base, len, typ)
+            }
         })
         .collect()
 }
@@ -525,7 +585,17 @@ fn fb_palette(op: &Op) -> Vec<mb::FramebufferColor> {
 }
 
 fn info_reqs(op: &Op) -> Vec<mh::MbiTagTypeId> {
-    op.bytes(0).chunks_exact(4).map(|c| mh::MbiTagTypeId::new(u32::from_le_bytes(c.try_into().unwrap()))).collect()
+    op.bytes(0)
+        .chunks_exact(4)
+        .map(|c| {
+            let n = u32::from_le_bytes(c.try_into().unwrap());
+            if a(op, 1) % 2 == 1 {
+                tag_type_variant(n).into()
+            } else {
+                mh::MbiTagTypeId::new(n)
+            }
+        })
+        .collect()
 }
 
 // ---------------------------------------------------------------------------
@@ -1554,7 +1624,7 @@ pub fn gen_args(c: Ctor, rng: &mut Rng, k: &GenKnobs) -> (Vec<u64>, Vec<Vec<u8>>
                 let t = if rng.chance(1, 2) { rng.range(0, 6) } else { sc(rng, 32) };
                 b.extend_from_slice(&(t as u32).to_le_bytes());
             }
-            (vec![], vec![b])
+            (vec![rng.below(2)], vec![b])
         }
         Ctor::Vbe => {
             let mut ctrl = rng.bytes(512);
@@ -1654,8 +1724,14 @@ pub fn gen_args(c: Ctor, rng: &mut Rng, k: &GenKnobs) -> (Vec<u64>, Vec<Vec<u8>>
             (vec![], vec![rng.bytes(n * 40)])
         }
         Ctor::EfiBsNew | Ctor::EfiBsDefault | Ctor::EndDefault | Ctor::HEndNew | Ctor::HEndDefault => (vec![], vec![]),
-        Ctor::TagHdrNew => (vec![sc(rng, 32), sc(rng, 32)], vec![]),
-        Ctor::MemAreaNew => (vec![sc(rng, 64), sc(rng, 64), sc(rng, 32)], vec![]),
+        Ctor::TagHdrNew => {
+            let typ = if rng.chance(1, 2) { rng.below(24) } else { sc(rng, 32) };
+            (vec![typ, sc(rng, 32), rng.below(2)], vec![])
+        }
+        Ctor::MemAreaNew => {
+            let typ = if rng.chance(1, 2) { rng.below(8) } else { sc(rng, 32) };
+            (vec![sc(rng, 64), sc(rng, 64), typ, rng.below(2)], vec![])
+        }
         Ctor::Custom => {
             let typ = if violate {
                 rng.below(22)
@@ -1674,7 +1750,7 @@ pub fn gen_args(c: Ctor, rng: &mut Rng, k: &GenKnobs) -> (Vec<u64>, Vec<Vec<u8>>
                 let v = if rng.chance(2, 3) { rng.range(0, 22) } else { sc(rng, 32) };
                 b.extend_from_slice(&(v as u32).to_le_bytes());
             }
-            (vec![rng.below(2)], vec![b])
+            (vec![rng.below(2), rng.below(2)], vec![b])
         }
         Ctor::HAddress => (vec![rng.below(2), sc(rng, 32), sc(rng, 32), sc(rng, 32), sc(rng, 32)], vec![]),
         Ctor::HEntryAddress | Ctor::HEntryEfi32 | Ctor::HEntryEfi64 => (vec![rng.below(2), sc(rng, 32)], vec![]),
